@@ -13,6 +13,7 @@ import (
 	"os"
 	"os/exec"
 	"path/filepath"
+	"regexp"
 	"sort"
 	"strconv"
 	"strings"
@@ -27,25 +28,42 @@ type c17Align struct {
 	delta int // -1, 0, +1
 }
 
-func c17BatchFile(r *RNG, L int, crlf bool, blanks float64, trailingNL bool, pad int, al *c17Align) (content string, nonEmpty []string) {
+func c17BatchFile(r *RNG, L int, crlf bool, blanks float64, trailingNL bool, pad int, al *c17Align, mixed bool, longLine, longLen int, wit *World) (content string, nonEmpty []string) {
 	eol := "\n"
 	if crlf {
 		eol = "\r\n"
 	}
+	pickEOL := func() {
+		if mixed {
+			// a file written on one system and extended on another: every line end is LF or CRLF on its own
+			eol = r.PickS([]string{"\n", "\r\n"})
+		}
+	}
 	var b strings.Builder
 	for i := 0; i < L; i++ {
 		for r.Bool(blanks) {
+			pickEOL()
 			b.WriteString(eol) // blank line
 		}
+		pickEOL()
 		// a line that fails fast with a reported run error (no project argument): cheap and attributable
 		line := fmt.Sprintf("plotNr=%d tag=line%d", 100+i, i+1)
+		if wit != nil {
+			// witness line: runs into a materialised project and fails with an error that names the soil id given on
+			// THIS line, so the error summary tells which line's content was executed (not only which index)
+			line = fmt.Sprintf("project=%s plotNr=%s fcode=%s soilId=q%d tag=line%d", wit.Loc, wit.Plot, wit.FCode, i+1, i+1)
+		}
 		if r.Bool(0.3) {
 			line += " poligonID=x" + fmt.Sprint(r.Intn(99))
 		}
 		if pad > 0 {
 			line += " note=" + strings.Repeat("n", r.Intn(pad))
 		}
-		if blanks > 0 && r.Bool(0.12) && !(al != nil && al.line == i) {
+		if longLen > 0 && longLine == i {
+			// one very long line (many overrides, long paths): longer than the 4 KiB buffers readers start with
+			line += " remark=" + strings.Repeat("r", longLen-len(line)-8)
+		}
+		if blanks > 0 && r.Bool(0.12) && !(al != nil && al.line == i) && !(longLen > 0 && longLine == i) {
 			line = r.PickS([]string{" ", "   ", "\t", " \t "}) // not empty: a line of white space is a batch line (it fails with a reported error)
 		}
 		if al != nil && al.line == i && (i < L-1 || trailingNL) {
@@ -65,6 +83,7 @@ func c17BatchFile(r *RNG, L int, crlf bool, blanks float64, trailingNL bool, pad
 		}
 	}
 	for trailingNL && r.Bool(blanks) {
+		pickEOL()
 		b.WriteString(eol)
 	}
 	return b.String(), nonEmpty
@@ -118,13 +137,64 @@ func execC17(sc *Scenario, env *Env) *Result {
 		res.add("reach.line-end-on-buffer-edge", 1)
 	}
 	pad, _ := strconv.Atoi(sc.Params["pad"])
-	content, lines := c17BatchFile(r, L, sc.Params["crlf"] == "1", blanks, sc.Params["nl"] != "0", pad, al)
+	longLine, longLen := 0, 0
+	if sc.Params["longlen"] != "" {
+		fmt.Sscan(sc.Params["longline"], &longLine)
+		fmt.Sscan(sc.Params["longlen"], &longLen)
+		res.add("reach.line-longer-than-4k", 1)
+	}
+	if sc.Params["mixed"] == "1" {
+		res.add("reach.mixed-line-endings", 1)
+	}
+	var wit *World
+	if len(sc.Worlds) > 0 {
+		wit = sc.Worlds[0]
+		res.add("reach.witness-lines", 1)
+	}
+	content, lines := c17BatchFile(r, L, sc.Params["crlf"] == "1", blanks, sc.Params["nl"] != "0", pad, al, sc.Params["mixed"] == "1", longLine, longLen, wit)
 	if len(content) > 32768 {
 		res.add("reach.batch-file-above-32k", 1)
 	}
 	root := env.NewRoot()
+	if wit != nil {
+		if err := WriteFiles(root, wit.Files(nil, BuildWeather(&wit.Weather, wit.Cfg.NoneValue, sc.Grid)), env.ParamDir); err != nil {
+			res.Status, res.Note = "invalid", err.Error()
+			return res
+		}
+	}
+	// which line contents were executed (witness lines only): soil id number -> count, per execution path
+	witRe := regexp.MustCompile(`'q(\d+)' not found`)
+	witSeen := map[string]map[int]int{"": {}, ":real-binary": {}}
+	noteWitness := func(path string, errorLines []string) {
+		for _, l := range errorLines {
+			if m := witRe.FindStringSubmatch(l); m != nil {
+				n, _ := strconv.Atoi(m[1])
+				witSeen[path][n]++
+			}
+		}
+	}
 	bf := filepath.Join(root, "batch.txt")
-	os.WriteFile(bf, []byte(content), 0o644)
+	if sc.Params["hist"] == "1" {
+		// history of invocations: the calculator has been run before on another batch file of the same name (other number
+		// of lines); the present file is then moved into place carrying an older modification time, as mv / cp -p / rsync -t
+		// do. Whatever the earlier invocations left behind (beside the file or anywhere else) must not reach this one.
+		L2 := 1 + (L+int(seed%7)+2)%(2*L+3)
+		if L2 == L {
+			L2++
+		}
+		decoy, _ := c17BatchFile(NewRNG(seed^0x5a5a), L2, sc.Params["crlf"] == "1", 0, true, 0, nil, false, 0, 0, nil)
+		os.WriteFile(bf, []byte(decoy), 0o644)
+		runCalc("-size", fmt.Sprint(K), "-batch", bf)
+		runCalc("-list", fmt.Sprint(K), "-batch", bf)
+		tmp := bf + ".incoming"
+		os.WriteFile(tmp, []byte(content), 0o644)
+		old := time.Now().Add(-48 * time.Hour)
+		os.Chtimes(tmp, old, old)
+		os.Rename(tmp, bf)
+		res.add("fault.calculator-ran-before-on-another-file-of-this-name", 1)
+	} else {
+		os.WriteFile(bf, []byte(content), 0o644)
+	}
 	viol := func(oracle, class, detail string) {
 		for _, v := range res.Violations {
 			if v.Class == class {
@@ -204,8 +274,10 @@ func execC17(sc *Scenario, env *Env) *Result {
 		for _, id := range out.TaskIDs {
 			executed[id]++
 		}
+		noteWitness("", parseDispatcher(out.Stdout).ErrorLines)
 	}
 	// the same ranges through the shipped binary (real main(): flag parsing, batch-file reading), unscheduled
+	realOK := false
 	if bin := os.Getenv("VERIF_HERMES2GO"); bin != "" && len(ranges) <= 64 {
 		executedReal := map[string]int{}
 		ok := true
@@ -235,6 +307,7 @@ func execC17(sc *Scenario, env *Env) *Result {
 				break
 			}
 			rep := parseDispatcher(string(out))
+			noteWitness(":real-binary", rep.ErrorLines)
 			if withLog {
 				for _, id := range rep.Started {
 					executedReal[id]++
@@ -252,6 +325,7 @@ func execC17(sc *Scenario, env *Env) *Result {
 			}
 			res.add("nodes.real-binary", 1)
 		}
+		realOK = ok
 		if ok {
 			var miss, mult []string
 			for i := 0; i < L; i++ {
@@ -267,6 +341,31 @@ func execC17(sc *Scenario, env *Env) *Result {
 			}
 			if len(mult) > 0 {
 				viol("exactly-once", "lines-executed-more-than-once:real-binary", fmt.Sprintf("ranges %q handed to the simulator binary with -lines: batch lines %s were executed by more than one job", listOut, strings.Join(mult, ",")))
+			}
+		}
+	}
+	if wit != nil {
+		for _, path := range []string{"", ":real-binary"} {
+			if path == ":real-binary" && !realOK {
+				continue
+			}
+			var never, more []string
+			for i, l := range lines {
+				if !strings.Contains(l, "soilId=q") {
+					continue // a white-space line: identified by its index only
+				}
+				switch n := witSeen[path][i+1]; {
+				case n == 0:
+					never = append(never, fmt.Sprint(i+1))
+				case n > 1:
+					more = append(more, fmt.Sprint(i+1))
+				}
+			}
+			if len(never) > 0 {
+				viol("exactly-once", "line-content-never-executed"+path, fmt.Sprintf("ranges %q: no job reported the error of batch lines %s (every line fails with an error naming its own soil id)", listOut, strings.Join(never, ",")))
+			}
+			if len(more) > 0 {
+				viol("exactly-once", "line-content-executed-more-than-once"+path, fmt.Sprintf("ranges %q: the error of batch lines %s was reported by more than one run", listOut, strings.Join(more, ",")))
 			}
 		}
 	}
@@ -295,7 +394,6 @@ func execC17(sc *Scenario, env *Env) *Result {
 		sort.Strings(ex)
 		viol("exactly-once", "unknown-lines-executed", "log ids outside the batch file: "+strings.Join(ex, " "))
 	}
-	_ = lines
 	if K > L {
 		res.add("reach.more-nodes-than-lines", 1)
 	}
@@ -337,6 +435,22 @@ func init() {
 			if r.Bool(0.3) {
 				sc.Params["pad"] = fmt.Sprint(r.PickI([]int{20, 120, 400}))
 			}
+			if r.Bool(0.25) {
+				sc.Params["mixed"] = "1"
+			}
+			if L <= 300 && r.Bool(0.4) {
+				// witness stratum: every line runs into one small materialised project and fails with an error naming its own soil id
+				p := batchProfile()
+				p.MinYears, p.MaxYears = 1, 1
+				sc.Worlds = []*World{GenWorld(r.Sub("witness", 0), p, paramTables)}
+			}
+			if r.Bool(0.2) {
+				sc.Params["longline"] = fmt.Sprint(r.Intn(L))
+				sc.Params["longlen"] = fmt.Sprint(r.PickI([]int{4090, 4097, 5000, 8193, 20000, 60000}))
+			}
+			if r.Bool(0.25) {
+				sc.Params["hist"] = "1"
+			}
 			if r.Bool(0.35) {
 				// a line end on the edge of a read buffer (4 KiB: bufio; 32 KiB: the calculator's own chunks; 64 KiB)
 				sc.Params["alignline"] = fmt.Sprint(r.Intn(L))
@@ -349,8 +463,8 @@ func init() {
 		Quick: 12*12 + 96, Thorough: 40*40 + 1400,
 		Chunk:      12,
 		NonTrivial: func(res *Result) bool { return res.Stats["nodes.run"] > 1 },
-		Rule:       "one (lines, nodes) pair per evaluation: exhaustive over 1..12 x 1..12 (thorough: 1..40 x 1..40) plus random pairs up to 2000 lines and 64 nodes; the batch file is generated with LF or CRLF endings, optional blank lines and optional missing final line break; the real calculator binary (built from the tree) is run as a child process for -size and -list; each printed range is executed by a simulated node: a fresh session running the shipped dispatcher under the seeded scheduler with the indices main() derives from -lines a-b, on the lines main() would read; oracles: number of ranges = reported array size, ranges contiguous from 1 to the last line, multiset of executed log ids = every non-empty line exactly once; non-trivial = more than one node ran",
-		ReachKeys:  []string{"nodes.run", "reach.more-nodes-than-lines", "reach.remainder", "reach.line-end-on-buffer-edge", "reach.batch-file-above-32k", "nodes.without-logoutput", "nodes.real-binary-without-logoutput"},
+		Rule:       "one (lines, nodes) pair per evaluation: exhaustive over 1..12 x 1..12 (thorough: 1..40 x 1..40) plus random pairs up to 2000 lines and 64 nodes; the batch file is generated with LF, CRLF or mixed endings, optional blank lines, optional missing final line break, optionally one line of 4-60 KiB, and in a quarter of the scenarios the calculator has been run before on another batch file of the same name (the present one moved into place with an older modification time); the real calculator binary (built from the tree) is run as a child process for -size and -list; each printed range is executed by a simulated node: a fresh session running the shipped dispatcher under the seeded scheduler with the indices main() derives from -lines a-b, on the lines main() would read; oracles: number of ranges = reported array size, ranges contiguous from 1 to the last line, multiset of executed log ids = every non-empty line exactly once; non-trivial = more than one node ran",
+		ReachKeys:  []string{"nodes.run", "reach.more-nodes-than-lines", "reach.remainder", "reach.line-end-on-buffer-edge", "reach.batch-file-above-32k", "nodes.without-logoutput", "nodes.real-binary-without-logoutput", "reach.mixed-line-endings", "reach.line-longer-than-4k", "reach.witness-lines", "fault.calculator-ran-before-on-another-file-of-this-name"},
 		Assumptions: []string{
 			"the scheduled nodes use a re-implementation of main()'s flag parsing and batch-file reading (stub); every scenario with at most 64 ranges is therefore executed a second time through the shipped simulator binary with real -batch/-lines flags (unscheduled) and judged by the same exactly-once oracle",
 			"lines are cheap failing lines (missing project argument) so that thousands of node runs fit in the budget; their log ids are read from the dispatcher's own output",
